@@ -232,7 +232,7 @@ def _wrap(name, orig, kind, describe):
                 finally:
                     _tl.d -= 1
                 ev["qmargin"] = worst
-                ev["qok"] = bool(worst <= 1.0)
+                ev["qok"] = bool(worst <= D.Driver.BOUND)
             ev.pop("compare", None)
         except Exception as e:  # machinery problem of the tracer: cut, never disturb the test
             r.cut = "tracer: %s: %s" % (type(e).__name__, str(e)[:100])
